@@ -27,7 +27,7 @@ META = {
             "found (size / ranks) divides by zero whenever 0 < total < ranks. The model is tied to bag.ipp/tagged_bag.hpp by running generated "
             "histories on the real code and comparing every rank's local vector (exact order), gather results and tags with the model's.",
     "note": "Trusted: Lean kernel + propext/Classical.choice/Quot.sound; hand-written model BagOps.lean tied to bag.ipp only on the generated "
-            "histories; exactly-once atomic delivery (C01/C08) is the execution model; std::shuffle / uniform_int_distribution / the unordered_map "
+            "histories; exactly-once atomic delivery is DERIVED from the communicator model (Props/ContainersComm: C14_bag_after_barrier) rather than assumed; std::shuffle / uniform_int_distribution / the unordered_map "
             "iteration order are parameters read from the real run; the underlying map of tagged_bag is modelled as an association list (C11 "
             "covers map); tag uniqueness needs serial < 2^40 and rank < 2^24 (stated hypotheses, the collision at 2^40 is a checked example).",
 }
